@@ -281,3 +281,22 @@ for kind in ('int', 'real'):
     c.setup(_setup)
     c.ensures('one-more-field-nothing-raised', "self._text == old(self._text) + str('{:>4.0f}'.format(value)).ljust(15)")
 
+
+
+# ---- reading the manifest: one entry per listed script under its (derived) path, queued unless the manifest marks it as a
+#      background script
+c = contract(WA, 'WebApp._load_manifest', serves=['C20'], unwrap=1, name='WebApp._load_manifest[two entries]')
+def _setup(b, case):
+    wa, calls = web_app(b)
+    f1, f2 = b.sym('str', 'file1'), b.sym('str', 'file2')
+    p1, p2 = 'first', 'second'
+    cfg1 = PyDict({'file_name': f1, 'path': p1, 'title': b.sym('str', 'title1'), 'background': b.sym('str', 'bg1'), 'color': b.sym('str', 'col1'), 'run_background': True})
+    cfg2 = PyDict({'file_name': f2, 'path': p2, 'title': b.sym('str', 'title2'), 'background': b.sym('str', 'bg2'), 'color': b.sym('str', 'col2')})
+    b.ghost('open', lambda I_, a, k: Opaque('file', {'close': lambda I2, o, a2, k2: None}))
+    b.ghost('json_load', lambda I_, a, k: PyList([cfg1, cfg2]))
+    settings = Opaque('settings', {'get_value': lambda I_, o, a, k: 'manifest.json'})
+    return {'self': wa, 'settings': settings, '_p1': p1, '_p2': p2, '_f1': f1, '_f2': f2}
+c.setup(_setup)
+c.bounded('two manifest entries with the paths "first" and "second"')
+c.ensures('one-entry-per-listed-script-under-its-path', 'len(self._scripts) == 2 and self._scripts[_p1].file_name == escaped(_f1) and self._scripts[_p2].file_name == escaped(_f2)')
+c.ensures('in-the-background-only-if-so-marked', 'self._scripts[_p1].run_background is True and self._scripts[_p2].run_background is False')
